@@ -1,6 +1,6 @@
 (* C03 property theorems. This file contains only statements closed by
    [exact lemma] and Print Assumptions. *)
-From V Require Import Common.Base C03.Num C03.SpecOps C03.NumProofs C03.Tree C03.Fold C03.MiniJS C03.Worlds C03.TreeProofs C03.TreeProofs2 C03.TreeProofs3 C03.TreeProofs4 C03.Refuted.
+From V Require Import Common.Base C03.Num C03.SpecOps C03.NumProofs C03.Tree C03.Fold C03.MiniJS C03.Worlds C03.TreeProofs C03.TreeProofs2 C03.TreeProofs3 C03.TreeProofs4 C03.TreeProofs5 C03.Refuted.
 
 (* js_ast.ToInt32 computes ECMA-262 ToInt32 for every float64 (finite dyadic of
    any magnitude, NaN, infinities), whatever Go's implementation-defined
@@ -97,6 +97,23 @@ Theorem expr_can_be_removed_sound :
     eval W tr e = Some (tr', out) -> tr' = tr /\ exists v, out = Val v.
 Proof. exact can_be_removed_sound_all. Qed.
 Print Assumptions expr_can_be_removed_sound.
+
+(* MaybeSimplifyNot: whenever it rewrites "!e" to e', e' evaluates exactly like
+   "!e" (same trace, same completion, same value), in every world_ok world; and
+   Not(e) always evaluates like "!e" *)
+Theorem simplify_not_correct :
+  forall (W : world), world_ok W ->
+    forall e e' w tr res,
+    maybe_simplify_not e = Some e' ->
+    eval W tr (EUn UNot e w) = Some res -> eval W tr e' = Some res.
+Proof. exact simplify_not_correct_all. Qed.
+Print Assumptions simplify_not_correct.
+
+Theorem not_is_negation :
+  forall (W : world), world_ok W ->
+    forall e tr res, eval W tr (EUn UNot e false) = Some res -> eval W tr (not_ e) = Some res.
+Proof. exact not_correct. Qed.
+Print Assumptions not_is_negation.
 
 (* CheckEqualityIfNoSideEffects on two literals (also inlined enum constants)
    answers what IsStrictlyEqual / IsLooselyEqual compute on their values: -0 == 0,
